@@ -11,6 +11,22 @@ import (
 func (i *interpreter) registerExtraModels() {
 	i.registerPromModels()
 	i.registerSortModels()
+	// float kernels that are assembly on amd64: computed on concrete values
+	for name, f := range map[string]func(float64) float64{
+		"math.Floor": math.Floor, "math.Ceil": math.Ceil, "math.Trunc": math.Trunc, "math.Sqrt": math.Sqrt,
+		"math.Exp": math.Exp, "math.Log": math.Log, "math.Round": math.Round, "math.RoundToEven": math.RoundToEven,
+		"math.archFloor": math.Floor, "math.archCeil": math.Ceil, "math.archTrunc": math.Trunc, "math.archSqrt": math.Sqrt,
+	} {
+		f := f
+		name := name
+		i.addModel(name, "computed on a concrete float64", func(fr *frame, a []value) value {
+			x, ok := a[0].(float64)
+			if !ok {
+				panic(unsupported(name + " of a symbolic value"))
+			}
+			return f(x)
+		})
+	}
 	// bit casts of concrete floats (the real functions go through unsafe.Pointer)
 	i.addModel("math.Float64bits", "bit pattern of a concrete float64", func(fr *frame, a []value) value {
 		f, ok := a[0].(float64)
